@@ -234,7 +234,9 @@ def main(tier="quick", seed=0, only=None):
         for dk in ("trunc", "flip"):
             n = sum(1 for _ in damage_images(b["blob"], b["packed"], (dk,)))
             step = 400
-            tasks += [("damage", (i, dk, lo, min(lo + step, n)), maxlen, tier) for lo in range(0, n, step)]
+            # (call sequences of length 3 are kept for the structure-aware inputs; byte-level damage mostly lands in packed data,
+            #  where every image opens and each extra level multiplies the work by 7)
+            tasks += [("damage", (i, dk, lo, min(lo + step, n)), min(maxlen, 2), tier) for lo in range(0, n, step)]
     nb = len(bases) if tier != "quick" else min(len(bases), 6)
     tasks += [("splice", (a, b), maxlen, tier) for a in range(nb) for b in range(nb) if a != b]
     for i, spec in enumerate(mutations.base_archives()):
@@ -289,7 +291,7 @@ def main(tier="quick", seed=0, only=None):
             "tokens set to {0,1,2^7k-1,2^7k,2^32-1,2^32,2^63-1,2^63,2^64-1}, every property id replaced by every id 0..26 and FF, every bit "
             "of every flag byte, bit vectors, CRCs, FILETIMEs, names, method ids, AES properties; for packed headers the same single-token mutations of the outer streams info that describes the packed header; two deviations: a count NUMBER set to 2^32 / 2^63-1 together with one property id replaced by End (thorough: by every id)), each section dropped / duplicated / "
             "swapped with its successor, FilesInfo property sizes left stale and re-fitted; all outer CRCs re-sealed (raw, LZMA- and "
-            f"AES-encoded headers); missing and 5 wrong passwords. On every input that opens: every call sequence of length <= {maxlen} over "
+            f"AES-encoded headers); missing and 5 wrong passwords. On every input that opens: every call sequence of length <= {maxlen} (byte-level damage: <= 2) over "
             f"{OPS} on one session (incl. extract twice without reset). Oracle: each call returns or raises an Exception within 8 s + 50 us/byte, "
             "no MemoryError with RLIMIT_AS = baseline + 1 GiB, worker process alive. Non-trivial = the input got past open()."
         ),
